@@ -420,7 +420,7 @@ def corr_bosonic(ctx, sf, n_cases):
                 return np.array(r.means()), np.array(r.covs()), np.array(r.weights())
         elif kind in ("parity", "displacement"):
             modes = rng.sample(range(n), rng.randint(1, n))
-            req = dict(op="st.bosonic", kind="ind", n=n, modes=modes)
+            req = dict(op="st.bosonic", kind="ind" if kind == "parity" else "displacementInd", n=n, modes=modes)
 
             def real(st=st, modes=modes, kind=kind):
                 r = call(st.parity_expectation if kind == "parity" else st.displacement, list(modes))
@@ -592,6 +592,10 @@ def make_args(rng, n, hbar):
     return a
 
 
+def probs_cutoff(n, D):
+    return {1: min(D, 8), 2: 4, 3: 3}.get(n, 3)
+
+
 def observe(sf, st, rep, n, D, args):
     """every method of the state object -> {key: value}; exceptions are recorded"""
     o = {}
@@ -613,7 +617,7 @@ def observe(sf, st, rep, n, D, args):
         if rep == "bosonic":
             r = call(st.reduced_bosonic, list(ms))
             o["reduced_bosonic:" + key] = r if is_exc(r) else (np.array(r[0]), np.array(r[1]), np.array(r[2]))
-        if len(ms) <= 2:
+        if len(ms) <= (2 if n <= 3 else 1):
             o["reduced_dm:" + key] = call(st.reduced_dm, list(ms), **ck)
     for m in range(n):
         o[f"mean_photon:{m}"] = call(lambda: np.array(st.mean_photon(m), dtype=float))
@@ -630,8 +634,9 @@ def observe(sf, st, rep, n, D, args):
     for ms in args["sels"]:
         key = ",".join(map(str, ms))
         o["parity:" + key] = call(st.parity_expectation, list(ms))
-        r = call(st.number_expectation, list(ms))
-        o["number:" + key] = r if is_exc(r) else np.array(r, dtype=float)
+        if fock or len(ms) <= 2:          # thewalrus' <prod n^2> is a large hafnian beyond two modes
+            r = call(st.number_expectation, list(ms))
+            o["number:" + key] = r if is_exc(r) else np.array(r, dtype=float)
         if not fock:
             o["displacement:" + key] = call(lambda: np.array(st.displacement(list(ms))))
     o["fidelity_vacuum"] = call(st.fidelity_vacuum)
@@ -640,8 +645,11 @@ def observe(sf, st, rep, n, D, args):
     for i, p in enumerate(args["polys"]):
         r = call(st.poly_quad_expectation, np.array(p["A"]), np.array(p["d"]), p["k"], p["phi"])
         o[f"poly:{i}"] = r if is_exc(r) else np.array(r, dtype=float)
-    if n <= 2 or not fock:
-        o["all_fock_probs"] = call(lambda: np.array(st.all_fock_probs(**ck)))
+    if fock and n <= 2:
+        o["all_fock_probs"] = call(lambda: np.array(st.all_fock_probs()))
+    elif not fock and n <= 3:
+        # thewalrus computes every probability by a (loop) hafnian: keep the block small
+        o["all_fock_probs"] = call(lambda: np.array(st.all_fock_probs(cutoff=probs_cutoff(n, D))))
     for pat in ([0] * n, [1] + [0] * (n - 1), [0] * (n - 1) + [2], [1] * n):
         o["fock_prob:" + ",".join(map(str, pat))] = call(st.fock_prob, list(pat), **ck)
     if n <= 2:
@@ -727,6 +735,16 @@ def compare(ctx, rep, obs, exp, tol, against, rp, skip=()):
             if got[1] != "NotImplementedError":
                 ctx.fail(f"{meth}:{rep}:raises-{got[1]}", f"{rep}.{key} raised {got[1]} on a valid argument", rp)
             continue
+        if meth in ("dm", "reduced_dm") and "representation" in against and np.shape(got) == np.shape(want) and \
+                np.ndim(got) >= 2:
+            # truncated gate matrices are inexact near the cutoff edge: compare the block four levels below it
+            c = max(3, np.shape(got)[0] - 4)
+            sl = tuple([slice(0, c)] * np.ndim(got))
+            got, want = np.asarray(got)[sl], np.asarray(want)[sl]
+        if meth == "all_fock_probs" and np.ndim(got) == np.ndim(want) and np.shape(got) != np.shape(want):
+            c = min(np.shape(got)[0], np.shape(want)[0])
+            sl = tuple([slice(0, c)] * np.ndim(got))
+            got, want = np.asarray(got)[sl], np.asarray(want)[sl]
         if isinstance(want, tuple):
             ok = all(close(g, w, tol) for g, w in zip(got, want))
         elif isinstance(want, bool):
@@ -746,17 +764,25 @@ def internal_identities(ctx, rep, obs, n, D, rp, tol):
         v = obs.get(k)
         return None if v is None or is_exc(v) else v
     probs = val("all_fock_probs")
+    tol0 = tol
     if probs is not None:
         probs = np.real(np.asarray(probs))
         nn = np.arange(probs.shape[0])
+        if not rep.startswith("fock"):
+            # thewalrus-backed probabilities are cut at a small block: identities that sum over all n hold up to the tail
+            tol = tol + 30 * probs.shape[0] ** 2 * max(0.0, 1 - float(probs.sum()))
         for key in list(obs):
             if key.startswith("fock_prob:") and val(key) is not None:
                 pat = tuple(int(x) for x in key.split(":")[1].split(","))
+                if max(pat) >= probs.shape[0]:
+                    continue
                 ctx.oracle_cases += 1
-                if abs(probs[pat] - val(key)) > tol:
+                if abs(probs[pat] - val(key)) > tol0:
                     ctx.fail(f"fock_prob:{rep}:vs-all_fock_probs", f"{rep} fock_prob{list(pat)} = {val(key)} but "
                              f"all_fock_probs()[{pat}] = {probs[pat]}", rp)
         for key in list(obs):
+            if tol > 1e-4:
+                break
             if key.startswith("parity:") and val(key) is not None:
                 ms = [int(x) for x in key.split(":")[1].split(",")]
                 sign = np.ones(probs.shape)
@@ -770,6 +796,8 @@ def internal_identities(ctx, rep, obs, n, D, rp, tol):
                     ctx.fail(f"parity:{rep}:vs-sum-over-probs", f"{rep} parity_expectation({ms}) = {val(key)} but "
                              f"sum (-1)^n p(n) over all_fock_probs() = {want}", rp)
         for m in range(n):
+            if tol > 1e-4:
+                break
             v = val(f"mean_photon:{m}")
             if v is not None:
                 marg = probs.sum(axis=tuple(a for a in range(n) if a != m))
@@ -781,9 +809,11 @@ def internal_identities(ctx, rep, obs, n, D, rp, tol):
             if r is not None:
                 marg = probs.sum(axis=tuple(a for a in range(n) if a != m))
                 ctx.oracle_cases += 1
-                if not close(np.real(np.diagonal(r)), marg, tol):
+                c = min(len(marg), np.shape(r)[0])
+                if not close(np.real(np.diagonal(r))[:c], marg[:c], tol):
                     ctx.fail(f"reduced_dm:{rep}:vs-marginal-probs", f"{rep} diagonal of reduced_dm({m}) is not the marginal of "
                              "all_fock_probs()", rp)
+    tol = tol0
     for m in range(n):
         a, b = val(f"mean_photon:{m}"), val(f"number:{m}")
         if a is not None and b is not None:
@@ -853,7 +883,33 @@ def run_rep(sf, spec, rep, D):
     return sim.run_spec(sf, spec, rep)
 
 
-def check_cross(ctx, sf, spec, hbar, D, seed, reps=None):
+def is_trunc_sig(sig):
+    return "-representation" in sig or (":fock-" in sig and "vs-phase-space-reference" in sig)
+
+
+def escalate(ctx, n0, rerun):
+    """truncation-escalation rule (DESIGN 1.6): a Fock-vs-phase-space discrepancy counts only if it is still there at a
+    larger cutoff"""
+    trunc = [f for f in ctx.failures[n0:] if is_trunc_sig(f["sig"]) and not f["sig"].endswith(":complex-means")]
+    if not trunc:
+        return
+    ctx.tally("oracle:escalated-to-larger-cutoff")
+    shadow = core.Ctx(ctx.pid, ctx.tier, ctx.seed)
+    shadow.proof_ok = False
+    rerun(shadow)
+    still = {f["sig"] for f in shadow.failures}
+    ctx.failures[n0:] = [f for f in ctx.failures[n0:] if f not in trunc or f["sig"] in still]
+
+
+def check_cross(ctx, sf, spec, hbar, D, seed, reps=None, escalated=False):
+    n0 = len(ctx.failures)
+    obs = check_cross_once(ctx, sf, spec, hbar, D, seed, reps)
+    if not escalated:
+        escalate(ctx, n0, lambda sh: check_cross_once(sh, sf, spec, hbar, D + (5 if spec["n"] <= 2 else 3), seed, reps))
+    return obs
+
+
+def check_cross_once(ctx, sf, spec, hbar, D, seed, reps=None):
     import random
     n = spec["n"]
     rp = dict(kind="cross", spec=spec, hbar=hbar, cutoff=D, seed=seed)
@@ -993,6 +1049,12 @@ def bosonic_nongauss_spec(rng, n):
 
 
 def check_bosonic_vs_fock(ctx, sf, spec, D, seed):
+    n0 = len(ctx.failures)
+    check_bosonic_vs_fock_once(ctx, sf, spec, D, seed)
+    escalate(ctx, n0, lambda sh: check_bosonic_vs_fock_once(sh, sf, spec, D + 5, seed))
+
+
+def check_bosonic_vs_fock_once(ctx, sf, spec, D, seed):
     """a non-Gaussian (multi-weight) bosonic state against the Fock representation of the same preparation"""
     import random
     n = spec["n"]
@@ -1006,11 +1068,17 @@ def check_bosonic_vs_fock(ctx, sf, spec, D, seed):
     of = observe(sf, sfk, "fock-mixed", n, D, args)
     fk = S.FK(sim.dm_of(sfk), n, HB)
     ctx.count(f"oracle:bosonic-nongaussian:n={n}", dict(spec=spec), n >= 2, sample=dict(spec=spec))
-    tolF = 2e-5 + 30 * D * D * max(0.0, 1 - fk.tr)
-    keys = [k for k in of if k.split(":")[0] in ("mean_photon", "quad", "parity", "fock_prob", "reduced_dm", "dm", "wigner",
+    tolF = 1e-4 + 30 * D * D * max(0.0, 1 - fk.tr)
+    cplx = bool(np.any(np.abs(np.imag(np.asarray(sb.means()))) > 1e-12))
+    ctx.tally("oracle:bosonic-nongaussian:" + ("complex-means" if cplx else "real-means"))
+    walrus = ("fock_prob", "reduced_dm", "dm")
+    keys = [k for k in of if k.split(":")[0] in ("mean_photon", "quad", "parity", "wigner",
                                                   "fidelity_vacuum", "fidelity_coherent", "fidelity_coherent0")]
     sub = {k: of[k] for k in keys if not is_exc(of[k])}
     compare(ctx, "bosonic", ob, sub, tolF, "fock-mixed-representation", rp)
+    # the methods that hand every component to thewalrus: thewalrus conjugates the means, which is only right for real ones
+    sub = {k: of[k] for k in of if k.split(":")[0] in walrus and not is_exc(of[k])}
+    compare(ctx, "bosonic", ob, sub, tolF, "fock-mixed-representation" + (":complex-means" if cplx else ""), rp)
     e = {"purity": fk.purity()}
     compare(ctx, "bosonic", ob, e, max(tolF, 1e-4), "fock-mixed-representation", rp)
     internal_identities(ctx, "bosonic", ob, n, D, rp, 1e-8)
